@@ -51,9 +51,11 @@ def cases(tier, seed):
     skipped = [k for k in ANCHORED if k not in modelDB.db or modelDB.db[k].get('linear') is None or modelDB.db[k].get('commons') is None]
     for model in models():
         classical = 'clpt' in model
-        for alpha, geo, lam, ords, edge in itertools.product([0., 10., 30., 60.], ['g1', 'g2'], list(LAMS), ORDS, EDGES):
+        for alpha, geo, lam, ords, edge in itertools.product([0., 10., 30., 60., 0.04], ['g1', 'g2'], list(LAMS), ORDS, EDGES):
             if model.startswith('iso_') and lam != 'general':
                 continue
+            if alpha == 0.04 and (geo != 'g1' or lam != 'general' or ords != (2, 2, 2) or edge != 'inf'):
+                continue          # a cone with a tiny but non-zero semi-vertex angle: still a cone (cone kernels, cone strain field)
             if tier == 'quick':
                 if geo == 'g2' and (alpha not in (0., 30.) or ords != (2, 2, 2)):
                     continue
